@@ -308,7 +308,7 @@ impl Property for C12 {
         ]
     }
     fn families(&self, tier: Tier) -> Vec<Family<Case>> {
-        vec![Family::random("containment", tier.n(40_000, 250_000), fam_containment)]
+        vec![Family::random("containment", tier.n(40_000, 750_000), fam_containment)]
     }
     fn judge(&self, case: &Case, _strict: bool) -> Verdict {
         let doc = case_xml(case);
